@@ -6,7 +6,7 @@ import xml.etree.ElementTree as ET
 from harness import common
 
 PROP = "C03"
-MODULES = ["CassisModel.Properties.C03"]
+MODULES = ["CassisModel.Properties.C03", "CassisModel.Properties.C03Doc"]
 THEOREMS = [
     "Cassis.Offsets.p2e_eq_utf16_len",
     "Cassis.Offsets.p2e_strictMono",
@@ -19,6 +19,10 @@ THEOREMS = [
     "Cassis.Offsets.covered_text_roundtrip",
     "Cassis.Offsets.setText_remaps",
     "Cassis.Offsets.converter_tracks_text",
+    "Cassis.Xmi.convOfText_docText",
+    "Cassis.Xmi.written_offset_is_utf16",
+    "Cassis.Xmi.xmi_offset_roundtrip",
+    "Cassis.Xmi.convertOffsets_restores",
 ]
 ASSUMPTIONS = [
     "a Python str is a sequence of code points; len(c.encode('utf-16-le'))//2 is 1 below U+10000 and 2 otherwise (checked against the encoder on every generated string)",
